@@ -48,15 +48,24 @@ def _worker(args):
     from pyvc import contract as C
     importlib.import_module('contracts.' + prop)
     cdef = [c for c in C.REGISTRY[prop] if c.name == cname][0]
+    # native pre-check: a clause that already fails on a sampled native run is a violation with its input; the expensive solver
+    # stages are then skipped for that clause (a broken tree is reported in seconds instead of after every solver budget)
+    pre = None
+    if not cdef.no_crosscheck:
+        try:
+            pre = C.crosscheck(cdef, min(n_cross, 25), seed)
+        except Exception:
+            pre = None
+    refuted = {f['clause']: f for f in (pre or {}).get('failures', [])}
     try:
-        res = C.verify_contract(cdef, tier, seed)
+        res = C.verify_contract(cdef, tier, seed, refuted=refuted)
     except Exception:
         return {'contract': cdef.ident, 'name': cname, 'crash': traceback.format_exc(), 'obligations': {},
                 'undecided': [], 'paths': 0, 'vcs': 0, 'solver_s': 0.0, 'targets': cdef.targets,
                 'source_hashes': {}, 'samples': [], 'bounded': cdef.bounded, 'wall_s': 0.0}
     if not cdef.no_crosscheck and 'crash' not in res:
         try:
-            res['crosscheck'] = C.crosscheck(cdef, n_cross, seed)
+            res['crosscheck'] = pre if (pre is not None and (n_cross <= 25 or pre['failures'])) else C.crosscheck(cdef, n_cross, seed)
         except Exception:
             res['crosscheck'] = {'runs': 0, 'rejected': 0, 'clause_evals': 0, 'failures': [],
                                  'error': traceback.format_exc()[-800:]}
